@@ -148,6 +148,22 @@ def clause(facts, rep, tier, rule='E5.number-value'):
                     if kind != 'Double' or not isinstance(val, float) or val != want or (str(val)[0] == '-') != (t[0] == '-'):
                         bad = 'the number %s is delivered as %s(%r); the correctly rounded double is %r' % (t, kind, val, want)
                         break
+            # texts that are NOT numbers where a digit is required: an error, never a value
+            if bad is None:
+                for t in ('-', '-a', '-.5', '1.', '1.e5', '1.x', '1e', '1e+', '1E-', '1e+x', '-1.', '0.', '0.e1', '0e', '-0e-', '12345678901234567890.', '1.5e', '123456789012345678901234e+'):
+                    buf = t.encode() + b'x"x' + b'\0' * 64
+                    mem = {base + i: b for i, b in enumerate(buf)}
+                    it = vm.make(fn, mem, [])
+                    del events[:]
+                    try:
+                        r, env, members, _ = it.run({fn.params[0]['id']: 'SAX'}, {'json_buf_': base, 'len_': len(t), 'pos_': 1, 'err_': 0})
+                    except UndefinedBehaviour as ex:
+                        bad = 'malformed number %s: undefined behaviour: %s' % (t, ex)
+                        break
+                    n += 1
+                    if not members.get('err_') or events:
+                        bad = 'the malformed number %s is not rejected (error %s, events %s)' % (t, members.get('err_'), events)
+                        break
         except Unsupported as ex:
             raise AnalysisBroken('%s: parseNumber cannot be evaluated: %s' % (rule, ex))
         rep.extra['number_texts_evaluated'] = rep.extra.get('number_texts_evaluated', 0) + n
